@@ -42,6 +42,7 @@ SIG_SAMPLES = "Model._apply_func|samples-input:function-values,is_par=False"
 SIG_EQIDX = "Geometry._all_values_equal|array-input:Discrete-geometries-of-different-size:IndexError"
 SIG_EQKEY = "Geometry._all_values_equal|array-input:geometry-with-gradient-attribute-vs-equal-geometry-without:KeyError"
 SIG_SUBCLS = "Model._apply_func|input:CUQIarray-subclass:type-is-check"
+SIG_ISID = "CUQIarray.funvals|is_par:numpy.bool_-or-int:identity-test-is-True"
 SIG_0D = "Model.forward|range:single-step-StepExpansion:0-d-output"
 SIG_TAGLEAK = "Model.gradient|wrt:CUQIarray,domain-geometry-with-gradient:subclass-tag-of-wrt.funvals-reaches-_2par"
 
@@ -337,7 +338,7 @@ class Geo:
             ind = inn.d
             conv = "CvId"
             if inn.kind == "step":
-                conv = "(CvStep %s %s %s)" % (cnat(ind["nodes"]), cnatll(inn.step_idx()), {"max": "PMax", "min": "PMin", "mean": "PMean"}[ind["proj"]])
+                conv = "(CvStep %s %s %s %s)" % (cnat(ind["nodes"]), cnatll(inn.step_idx()), {"max": "PMax", "min": "PMin", "mean": "PMean"}[ind["proj"]], cbool(_step_squeezes()))
                 cs, inner_ics, inner_raises = ufs(d["cs"]), [F(0), F(1)], None
             else:
                 cs = poly_compose(ufs(d["cs"]), ufs(ind["cs"]))
@@ -357,7 +358,7 @@ class Geo:
         if k in ("image", "default2d", "cont2d", "mapped_img") and not d.get("visual"):
             conv = "(%s %s %s)" % ("CvImgF" if d.get("order", "C") == "F" else "CvImgC", cnat(d["r"]), cnat(d["c"]))
         if k == "step":
-            conv = "(CvStep %s %s %s)" % (cnat(d["nodes"]), cnatll(self.step_idx()), {"max": "PMax", "min": "PMin", "mean": "PMean"}[d["proj"]])
+            conv = "(CvStep %s %s %s %s)" % (cnat(d["nodes"]), cnatll(self.step_idx()), {"max": "PMax", "min": "PMin", "mean": "PMean"}[d["proj"]], cbool(_step_squeezes()))
         mp = "(Some %s)" % qv(ufs(d["cs"])) if "cs" in d else "None"
         if k in ("mapped", "mapped_img", "sub1d", "user"):
             if d.get("ics") is not None:
@@ -573,6 +574,14 @@ def coq_model(meta):
 _PROBE = {}
 
 
+def _step_squeezes():
+    """state of the tree: StepExpansion.fun2par ends in an unrestricted squeeze() (a single-step geometry gives a 0-d array)"""
+    if "sq" not in _PROBE:
+        import cuqi.geometry as G
+        _PROBE["sq"] = bool(np.ndim(G.StepExpansion(np.arange(2.0), 1).fun2par(np.ones(2))) == 0)
+    return _PROBE["sq"]
+
+
 def _subcls(CUQIarray):
     return _fn(("arrsubcls",), lambda: type("UserArray", (CUQIarray,), {"__doc__": "a user's subclass of CUQIarray"}))
 
@@ -595,12 +604,19 @@ def probe(cuqi):
     from cuqi.array import CUQIarray
     o = Model(lambda x: x, 1, 1).forward(_subcls(CUQIarray)(np.array([1.0])))
     typeis = type(o) is not CUQIarray
-    _PROBE["q"] = (defeq, samples_par, eqidx, typeis)
+    # tag leak: the witness configuration of the finding, written out
+    gm = G.MappedGeometry(G.Continuous1D(2), map=lambda x: 2 * x + 1, imap=lambda f: (f - 1) / 2)
+    gm.gradient = lambda direction, wrt: direction * 2.0
+    mt = Model(lambda x: x ** 2, 2, gm, gradient=lambda direction, wrt: 2 * wrt * direction)
+    pw = np.array([1.0, 2.0])
+    tagleak = not np.array_equal(np.asarray(mt.gradient(np.ones(2), CUQIarray(pw, geometry=gm))), np.asarray(mt.gradient(np.ones(2), pw)))
+    isid = not np.array_equal(np.asarray(CUQIarray(pw, is_par=np.bool_(True), geometry=gm).funvals), 2 * pw + 1)
+    _PROBE["q"] = (defeq, samples_par, eqidx, typeis, tagleak, isid)
     return _PROBE["q"]
 
 
 def coq_quirks(q):
-    return "(mkQ %s %s %s %s)" % (cbool(q[0]), cbool(q[1]), cbool(q[3]), cbool(q[2]))
+    return "(mkQ %s %s %s %s %s %s)" % (cbool(q[0]), cbool(q[1]), cbool(q[3]), cbool(q[5]), cbool(q[4]), cbool(q[2]))
 
 
 # ------------------------------------------------------------------------------------------------
@@ -657,6 +673,13 @@ def _out_dtype(out):
     from cuqi.samples import Samples
     a = out.samples if isinstance(out, Samples) else out
     return str(getattr(a, "dtype", type(a).__name__))
+
+
+def odd_flag(x, kind):
+    """the same CUQIarray with its is_par flag as numpy.bool_ / int (truthiness unchanged)"""
+    if kind and hasattr(x, "is_par") and hasattr(x, "geometry") and not hasattr(x, "samples"):
+        x.is_par = np.bool_(x.is_par) if kind == "npbool" else int(x.is_par)
+    return x
 
 
 def cast_input(cuqi, x, dt):
@@ -787,6 +810,7 @@ def run_forward_case(cuqi, meta):
     form, flag = meta["form"], meta["flag"]
     _replay_history(cuqi, model, meta, dgs, rgs)
     x = cast_input(cuqi, mk_input(cuqi, form, vals, dgs, geom_object_for_copy(cuqi, dgs), model.domain_geometry), meta.get("dt"))
+    x = odd_flag(x, meta.get("ipk"))
     before = _snapshot(x)
     try:
         out = model.forward(x, is_par=flag) if not meta.get("call") else model(x, is_par=flag)
@@ -855,6 +879,8 @@ def forward_case(cuqi, meta, q):
     vals = [ufs(c) for c in meta["vals"]]
     xin = coq_vec_input(meta["form"], vals, dgs.coq(), "InVec", "InArr",
                         lambda vs, isfun: "(InSamples %s %s)" % (cbool(isfun and dgs.twod), clist([qv(c) for c in vs])))
+    if meta.get("ipk") and q[5]:      # .funvals tests `is_par is True`: a numpy.bool_/int flag is never that -> used unconverted
+        xin = "(InArr %s false %s)" % (dgs.coq(), qv(vals[0]))
     okflag = obs[3] if obs[0] == "val" and obs[1] not in (5, 6, 7, 8) else True      # (a subclass instance's label is part of its kind)
     expr = "check_forward %s %s %s %s %s %s %s %s" % (coq_quirks(q), fwd, rgs.coq(), dgs.coq(), xin,
                                                       cbool(meta["flag"]), coq_obs(obs), cbool(okflag))
@@ -889,6 +915,7 @@ def run_gradient_case(cuqi, meta):
     direction = mk_ginput(cuqi, dform, d, rgs, geom_object_for_copy(cuqi, rgs), model.range_geometry)
     wrt = mk_ginput(cuqi, wform, w, dgs, geom_object_for_copy(cuqi, dgs), model.domain_geometry)
     direction, wrt = cast_input(cuqi, direction, meta.get("ddt")), cast_input(cuqi, wrt, meta.get("wdt"))
+    direction, wrt = odd_flag(direction, meta.get("dipk")), odd_flag(wrt, meta.get("wipk"))
     dpar = dform.split("=")[0] not in ("fun",) if "dpar" not in meta else meta["dpar"]
     wpar = wform.split("=")[0] not in ("fun",) if "wpar" not in meta else meta["wpar"]
     _replay_history(cuqi, model, meta, dgs, rgs)
@@ -968,9 +995,15 @@ def gradient_case(cuqi, meta, q):
     samp = lambda vs, isfun: "GiSamples"
     din = coq_vec_input(meta["dform"], [d], rgs.coq(), "GiVec", "GiArr", samp)
     win = coq_vec_input(meta["wform"], [w], dgs.coq(), "GiVec", "GiArr", samp)
+    if meta.get("dipk"):
+        din = "(GiArrOdd %s %s %s)" % (rgs.coq(), cbool(meta["dform"].split("=")[0] == "arrpar"), qv(d))
+    if meta.get("wipk"):
+        win = "(GiArrOdd %s %s %s)" % (dgs.coq(), cbool(meta["wform"].split("=")[0] == "arrpar"), qv(w))
     okflag = obs[3] if obs[0] == "val" else True
     expr = "check_gradient %s %s %s %s %s %s %s %s %s %s" % (coq_quirks(q), gf, rgs.coq(), dgs.coq(), din, win,
                                                             cbool(dpar), cbool(wpar), coq_obs(obs), cbool(okflag))
+    if dgs.kind == "step" and dgs.has_grad:     # hypothesis of C12_gradient_chain_step for the index family actually used
+        expr += " && step_wf %s %s" % (cnat(dgs.d["nodes"]), cnatll(dgs.step_idx()))
     if meta.get("refusal_only"):      # Samples flagged as function values: only "refused" is compared, not the exception class
         expr = "check_refused (gradient %s %s %s %s %s %s true true) %s" % (coq_quirks(q), gf, rgs.coq(), dgs.coq(), din, win,
                                                                             cbool(obs[0] == "err" and obs[1] != "other:InputMutated"))
@@ -1119,9 +1152,11 @@ def forward_signature(m, obs, exp, q):
     A = [[Fraction(a) for a in row] for row in m["A"]]
     cs, b = ufs(m["cs"]), ufs(m["b"])
     # 0-d output: the value is right, only the shape is () instead of (1,)
-    if rg.kind == "step" and rg.d["steps"] == 1 and obs[0] == "val" and exp[0] == "val" and obs[1] in (3, 4) \
+    if _step_squeezes() and rg.kind == "step" and rg.d["steps"] == 1 and obs[0] == "val" and exp[0] == "val" and obs[1] in (3, 4) \
             and obs[1] - 3 == exp[1] and obs[2] == exp[2]:
         return SIG_0D
+    if q[5] and m.get("ipk") and obs[0] == "val" and exp[0] == "val" and obs[1] == exp[1]:
+        return SIG_ISID         # right wrapper, values of the unconverted array
     if q[3] and sub and obs[0] == "val" and exp[0] == "val" and obs[1] in (0, 3, 5, 6, 7, 8) and (obs[2] == exp[2] or q[0] or q[1]):
         return SIG_SUBCLS       # right numbers (unless another open defect interferes), not re-wrapped as CUQIarray of the range geometry
     if q[2] and (arr or sub) and err == "EIndex" and dg.kind == "discrete" and rg.kind == "discrete" and dg.pdim != rg.pdim:
@@ -1156,7 +1191,9 @@ def gradient_signature(m, obs, exp, q):
         return SIG_EQIDX
     if q[2] and darr and err == "EKey" and rg.kind == "cont1d" and rg.has_grad and not dg.has_grad and _strip(dg) == _strip(rg):
         return SIG_EQKEY            # the direction's tag (range geometry object with `gradient`) meets the domain geometry
-    if leak_config(m) and exp is not None:
+    if q[5] and (m.get("dipk") or m.get("wipk")) and obs[0] == "val" and exp is not None:
+        return SIG_ISID
+    if q[4] and leak_config(m) and exp is not None:
         # prediction: fun2par of the domain geometry applied to the correct gradient (or its refusal)
         try:
             pred = dg.o_fun2par(exp[2][0])
@@ -1265,7 +1302,8 @@ def run(ctx):
     rng = ctx.rng
     q = probe(cuqi)
     ctx.note("tree state: _DefaultGeometry1D equals Continuous1D subclasses = %s; Samples columns always treated as parameters = %s; "
-             "Discrete(m) == Discrete(n) raises IndexError = %s; CUQIarray subclass output not re-wrapped = %s" % q)
+             "Discrete(m) == Discrete(n) raises IndexError = %s; CUQIarray subclass output not re-wrapped = %s; "
+             "gradient leaks wrt's CUQIarray tag = %s; CUQIarray tests is_par by identity = %s" % q + "; StepExpansion.fun2par squeezes to 0-d = %s" % _step_squeezes())
     cases = []
     reps = 1
 
@@ -1545,6 +1583,33 @@ def run(ctx):
                     add(gradient_case, dict(op="gradient", mk=mk, dg=dg.d, rg=rg.d, dform=dform, wform=wform, d=fs(dvec), w=fs(w_in),
                                             ddt=ddt, wdt=wdt, **mm))
 
+    # ---- falsy/truthy-but-legitimate flag values: CUQIarray.is_par given as numpy.bool_ / int, always
+    for dg in [Geo(kind="mapped", n=3, cs=fs(int_aff), ics=fs(int_iaff), grad=True), Geo(kind="cont1d", n=3), Geo(kind="image", r=2, c=2, order="F"),
+               Geo(kind="user", n=3, cs=fs(int_aff), ics=fs(int_iaff), grad=True)]:
+        for ipk in ["npbool", "int"]:
+            for rg in [Geo(kind="cont1d", n=2), Geo(kind="mapped", n=3, cs=fs(int_aff), ics=fs(int_iaff))]:
+                mk = rng.choice(["jac", "linfun", "dir"])
+                mm = rand_model(rng, mk, dg.nfun, rg.nfun)
+                for form in ["arrpar", "arrfun", "arrpar=copy"]:
+                    p = rand_vec(rng, dg.pdim, halves=False)
+                    add(forward_case, dict(op="forward", mk=mk, dg=dg.d, rg=rg.d, form=form, ipk=ipk, vals=[fs(dg.o_par2fun(p) if form == "arrfun" else p)],
+                                           flag=True, call=False, **mm))
+            rg = Geo(kind="cont1d", n=2)
+            for mk in ["jac", "dir"]:
+                mm = rand_model(rng, mk, dg.nfun, rg.nfun)
+                for dform, wform, dk, wk in [("arrpar", "par", ipk, None), ("par", "arrpar", None, ipk), ("par", "arrfun", None, ipk),
+                                             ("arrfun", "arrpar", ipk, ipk)]:
+                    if dg.twod and wform == "arrfun" and wk:
+                        continue      # (.parameters would wrap the unconverted 2-d array as parameters: ValueError, same defect)
+                    p = rand_vec(rng, dg.pdim, halves=False)
+                    meta = dict(op="gradient", mk=mk, dg=dg.d, rg=rg.d, dform=dform, wform=wform, d=fs(rand_vec(rng, rg.pdim)),
+                                w=fs(dg.o_par2fun(p) if wform == "arrfun" else p), **mm)
+                    if dk:
+                        meta["dipk"] = dk
+                    if wk:
+                        meta["wipk"] = wk
+                    add(gradient_case, meta)
+
     # ---- instances of a user subclass of CUQIarray as input, always
     aff_s, iaff_s = [1, 2], [F(-1, 2), F(1, 2)]
     sub_doms = [Geo(kind="cont1d", n=3), Geo(kind="mapped", n=3, cs=fs(aff_s), ics=fs(iaff_s)), Geo(kind="step", nodes=4, steps=2, proj="max"),
@@ -1633,7 +1698,8 @@ def run(ctx):
 
     return Result(cases=cases, rule=RULE,
                   extra={"tree_state": {"default1d_eq_accepts_subclasses": q[0], "samples_flag_ignored": q[1],
-                                        "discrete_eq_indexerror": q[2], "cuqiarray_subclass_not_rewrapped": q[3]}},
+                                        "discrete_eq_indexerror": q[2], "cuqiarray_subclass_not_rewrapped": q[3],
+                                        "gradient_tag_leak": q[4], "step_fun2par_squeezes": _step_squeezes()}},
                   assumptions=["numpy @, reshape/ravel(order), elementwise + and * are exact on the small integer/dyadic data generated",
                                "scipy.linalg.solve on an identity matrix is exact (PDEModel cells)",
                                "the forward callable, the user Jacobian / direction-Jacobian product and the user geometry gradient are "
@@ -1689,7 +1755,10 @@ W_EQKEY = dict(op="forward", mk="jac", dg=dict(kind="step", nodes=4, steps=2, pr
 W_SUBCLS = dict(op="forward", mk="jac", dg=dict(kind="cont1d", n=3), rg=dict(kind="mapped", n=2, cs=["1", "2"], ics=["-1/2", "1/2"]),
                 form="subpar", vals=[["1", "2", "3"]], flag=True, call=False,
                 A=[["1", "0", "1"], ["0", "2", "1"]], cs=["0", "1"], b=["1", "1"])
-WITNESSES = {SIG_SUBCLS: W_SUBCLS, SIG_EQIDX: W_EQIDX, SIG_EQKEY: W_EQKEY, SIG_DEFEQ: W_DEFEQ, SIG_SAMPLES: W_SAMPLES, SIG_0D: W_0D, SIG_TAGLEAK: W_TAGLEAK}
+W_ISID = dict(op="forward", mk="jac", dg=dict(kind="mapped", n=3, cs=["1", "2"], ics=["-1/2", "1/2"]), rg=dict(kind="cont1d", n=3),
+              form="arrpar", ipk="npbool", vals=[["1", "2", "3"]], flag=True, call=False,
+              A=[[("1" if i == j else "0") for j in range(3)] for i in range(3)], cs=["0", "1"], b=["0"] * 3)
+WITNESSES = {SIG_ISID: W_ISID, SIG_SUBCLS: W_SUBCLS, SIG_EQIDX: W_EQIDX, SIG_EQKEY: W_EQKEY, SIG_DEFEQ: W_DEFEQ, SIG_SAMPLES: W_SAMPLES, SIG_0D: W_0D, SIG_TAGLEAK: W_TAGLEAK}
 
 
 def known_witnesses(ctx):
